@@ -137,6 +137,13 @@ def spec_objs(sname):
     return out
 
 
+# rate_specs is documented as an Iterable: one-shot iterables count
+FORMS = {'list': list, 'tuple': tuple, 'iter': iter,
+         'gen': lambda specs: (x for x in specs),
+         'map': lambda specs: map(tuple, specs)}
+F_ALL = ['list', 'tuple', 'iter', 'gen', 'map']
+
+
 class Cell:
     def __init__(self, d):
         self.d = d
@@ -163,7 +170,9 @@ def run_history(hist, st=None):
     out = []
     prev_fp = None
     results = []
-    for i, (vn, sn) in enumerate(hist):
+    for i, ev in enumerate(hist):
+        vn, sn = ev[0], ev[1]
+        form = ev[2] if len(ev) > 2 else 'list'
         last = i == len(hist) - 1
         if last:
             prev_fp = lookups(conv, model, cell, None, st)[1]
@@ -173,7 +182,7 @@ def run_history(hist, st=None):
         except Reject:
             want = 'reject'
         try:
-            conv.update(VALIDITIES[vn], spec_objs(sn))
+            conv.update(VALIDITIES[vn], FORMS[form](spec_objs(sn)))
             got = 'ok'
         except (ValueError, TypeError) as exc:
             got = 'reject'
@@ -371,6 +380,9 @@ def run(tier, seed):
         sq = S_QUICK + [['bad+ok', 'both', 'base'][k]]
         runs.append(([(v, s) for v in vq for s in sq], 3))
         runs.append(([(v, s) for v in V_ALL for s in S_ALL], 2))
+    vf, sf = ['none', 'y2020', 'm03'], ['usd11', 'usd12', 'ok+bad', 'both']
+    runs.append(([(v, s_, f) for v in vf for s_ in sf for f in F_ALL],
+                 3 if tier == 'thorough' else 2))
     for events, depth in runs:
         # partition by the first event
         prefixes = [[e] for e in events]
@@ -389,7 +401,8 @@ def run(tier, seed):
     total.extra['event_alphabets'] = [(len(e), d) for e, d in runs]
     total.extra['lookups_per_state'] = 16 * (len(DATES) + 1)
     return total, dict(
-        rule="events = update(validity, spec list); alphabets and depths: "
+        rule="events = update(validity, spec list[, container form of the "
+             "Iterable: list, tuple, iterator, generator, map]); alphabets and depths: "
              + ', '.join(f"{len(e)} events to depth {d}" for e, d in runs)
              + "; every history (no pruning) is replayed on a fresh "
              "converter, then 16 ordered currency pairs x {4 explicit dates, "
